@@ -30,7 +30,11 @@ Record mlists : Type := mkLists {
   L_zk : list (list F);
   L_xr : list (list (list (list F)));  (* [k][i][j] helper state at root j *)
   L_zr : list (list (list (list F)));
-  L_tr : list (list (list F)) }.
+  L_tr : list (list (list F));
+  (* dense output: per integrator step, column i = coefficient vector of (local time)^i *)
+  L_poly : list (list (list F));
+  L_polyq : list (list (list F));
+  L_polyz : list (list (list F)) }.
 
 Definition colget (cols : list (list F)) (k : Z) : list F := pygetd [] cols k.
 
